@@ -156,3 +156,37 @@ Theorem C05_kp_weak_sound :
           existsb (noti_eqb (snd e)) (before_sync g) = true).
 Proof. exact kp_weak_sound. Qed.
 Print Assumptions C05_kp_weak_sound.
+
+(** Writes between the walk and the send -- PARTIAL (same standing as
+    C05_once_weak_partial: an interleaving model, not the LTS of the goroutines).
+    The walk over [c0] queues handles ([walk_handles]); the sender reads each
+    handle when it sends it ([held_send]: the value at the walk, or a value
+    stored later under the same target and path in one of the states [hist]).
+    Then: everything delivered was stored under a matching path at some moment
+    of the call; every leaf the walk found is delivered with a value it held
+    during the call; no sync inside, and one response per queued handle -- a
+    leaf deleted or rewritten after it was queued does not abort the delivery
+    of the rest (the sync and the OK status follow as in C05_once_exact). *)
+Theorem C05_once_held_weak_partial :
+  forall c0 hist names pf subs ups,
+    wf_cache c0 -> (forall sp, In sp subs -> complete_path pf sp <> None) ->
+    held_send hist (walk_handles c0 names pf subs) ups ->
+    (forall n, In (RUpd n) ups ->
+       exists t p sp full, In t names /\ In sp subs /\ complete_path pf sp = Some full
+         /\ qmatch full p = true
+         /\ exists c tr, In c (c0 :: hist) /\ assoc t c = Some tr /\ lookup tr p = Some n)
+    /\ (forall t tr p n0 sp full,
+          In t names -> assoc t c0 = Some tr -> lookup tr p = Some n0 -> In sp subs ->
+          complete_path pf sp = Some full -> qmatch full p = true ->
+          exists n, In (RUpd n) ups
+            /\ exists c tr', In c (c0 :: hist) /\ assoc t c = Some tr' /\ lookup tr' p = Some n)
+    /\ ~ In RSync ups
+    /\ List.length ups = List.length (walk_handles c0 names pf subs).
+Proof. exact once_held_weak. Qed.
+Print Assumptions C05_once_held_weak_partial.
+
+(** non-vacuity: delivering every handle as it was queued is a [held_send] *)
+Theorem C05_sequential_delivery_is_held_send :
+  forall hist q, held_send hist q (map (fun h => RUpd (snd h)) q).
+Proof. exact held_send_refl. Qed.
+Print Assumptions C05_sequential_delivery_is_held_send.
